@@ -307,9 +307,15 @@ func (m *Mux) Close() error {
 	// point.
 	close(m.done)
 	m.ctxCancelFunc()
+	var underlayWG sync.WaitGroup
 	for _, underlay := range m.underlays {
-		underlay.Close()
+		underlayWG.Add(1)
+		go func(underlay Underlay) {
+			defer underlayWG.Done()
+			underlay.Close()
+		}(underlay)
 	}
+	underlayWG.Wait()
 	m.underlays = make([]Underlay, 0)
 	m.mu.Unlock()
 
